@@ -36,10 +36,13 @@ CLAIMS['C06'] = dict(
   text='Decides: every objective call in the request wrapper is dominated by the budget test on the same batch; the '
        'evaluation counter is increased exactly once by len(batch) after a successful call and on no None / uncalled '
        'path; only indices absent from the cache are evaluated and hits are counted; the complete package-wide set '
-       'of writers of info["stop"] with literal, guarding condition and priority e_vld > e > nswp; every request '
+       'of writers of info["stop"] with literal, guarding condition and priority e_vld > e > nswp, a reason that is '
+       'already set is never overwritten by a newly computed one; every request '
        'inside a half-sweep is followed by a stop test whose branch folds the pending factor on the correct side '
        'into the current core, refreshes info from the returned tensor and returns it; nswp is increased once per '
-       'sweep; the ValueError rejections precede the first effect; every return path (including interruption at '
+       'sweep; the ValueError rejections precede the first effect and, by abstract execution of the None / value '
+       'patterns of the stop and validation arguments, reject exactly the documented combinations (0 given alone is a '
+       'criterion, not "unset"); every return path (including interruption at '
        'every core of either half-sweep, d = 2,3) is a well-formed tensor of the original mode sizes; batches handed '
        'to the objective are int arrays of width d.',
   note='Not decided: finiteness of the returned cores, tightness of m, index values beyond being copies of arange(n_k). '
@@ -196,21 +199,25 @@ CLAIMS['C17'] = dict(
        '2, 4, 8 returns q cores of mode size 2 whose outer bonds are exactly the original ranks and whose inner bonds chain, the '
        'inner cores being orthonormal-row right factors of the successive truncations; the index maps answer a batch with a '
        'batch and a single index with a single index on every return path; '
-       'tt_to_qtt / qtt_to_tt results well formed; e, r forwarded; non-powers of two rejected, powers accepted.',
+       'tt_to_qtt / qtt_to_tt results well formed; e, r forwarded; non-powers of two rejected, powers accepted '
+       '(by abstract execution at mode sizes 6, 12, 8, with a symbolic and with even literal left ranks: the rejection '
+       'depends on the mode size alone).',
   note='Not decided: accuracy of the round trip; digit order produced by the halving loop as values.')
 CLAIMS['C18'] = dict(
   technique='rational-function normal forms of the node formulas (composition = identity, endpoints) + clamp, rejection and shape rules',
   text='Decides: poi_to_ind (before rounding) composed with ind_to_poi is the identity as a rational-function identity for uniform '
        'and Chebyshev grids (arccos(cos u) = u on [0, pi]); index 0 / n-1 map to the documented box ends; scaling maps a, b to '
        'the canonical ends; after scaling and after rounding both clamps follow with matching bounds; unknown kinds, inconsistent '
-       'option lengths and scalar options without d are rejected; option broadcasting, batches, grid_flat and cdf_getter are '
+       'option lengths, an option list whose length differs from an explicit d, and scalar options without d are rejected '
+       '(abstract execution; a matching list is accepted); option broadcasting, batches, grid_flat and cdf_getter are '
        'dimension consistent with the right result shapes on every return path; the rows of grid_flat enumerate the '
        'multi-indices with the first index fastest (layout facet); the empirical CDF keeps one step per sample.',
   note='Not decided: floating-point round trip at cell boundaries, nearest-node ties.')
 CLAIMS['C19'] = dict(
   technique='scalar-degree facet + symbolic 2x2 transfer pattern + shape typing + constant-folded index helpers',
   text='Decides the structural part only: const / delta carry v with total degree 1 on both branches of the tiny-value test; '
-       'vector_delta / matrix_delta store v into exactly one core; poly cores propagate and close the running sum; all '
+       'vector_delta / matrix_delta carry v with degree 1 in exactly one core (degree facet of the returned cores; an in-place '
+       'scaling of a core that is a view of a shared table reaches every core that is a view of the same row); poly cores propagate and close the running sum; all '
        'constructors return well-formed tensors of the requested shape and rank profile and the flat random vector is cut into '
        'pieces of exactly n r r entries; index helpers reject out-of-range positions, normalise negatives and emit little-endian '
        'digits (folded for q <= 3); zero entries of const only under their guard; a float-documented option (shift of poly) '
